@@ -16,6 +16,7 @@ import (
 	"net"
 	"net/netip"
 	"sync"
+	"time"
 
 	cp "github.com/cockroachdb/pebble"
 	"github.com/cockroachdb/pebble/vfs"
@@ -330,6 +331,10 @@ func (p *peer) answer(proto string, msg []byte) []byte {
 		if r, ok := p.script[k]; ok {
 			delete(p.script, k)
 			p.mu.Unlock()
+			if string(r) == "\x00silent" { // no answer before the asker's timeout
+				time.Sleep(1500 * time.Millisecond)
+				return nil
+			}
 			return r
 		}
 	}
